@@ -299,6 +299,22 @@ theorem commit_spec (c : Cache) (p : Path) (u : Url) (t : Bytes) (io : CommitIo)
     | none => cases tr <;> cases ps <;> simp [Cache.set, hcp]
     | some n => cases n <;> cases tr <;> cases rm <;> cases ps <;> simp [Cache.set, hcp]
 
+
+/-! ### single steps, for evaluating concrete runs -/
+
+theorem step_chunk_some {c : Cache} {req : Req} {u : Url} {rest : List Url} {temp : Option Bytes} {nl : Bool}
+    {ps ps' : P.σ} {rx : List Bytes} {b cb : Bytes} {w : Bool} (h : P.feed ps b = some (ps', cb)) :
+    step c req (.streaming u rest temp nl ps rx) (.chunk b w) =
+      (c, .streaming u rest (tee temp cb w) (updNl nl cb) ps' (b :: rx)) := by
+  simp only [step, h]
+
+theorem step_eof_commit {c : Cache} {req : Req} {u : Url} {rest : List Url} {temp : Option Bytes} {nl : Bool}
+    {ps : P.σ} {rx : List Bytes} {fin tt : Bytes} {t : P.Sym} {io : CommitIo}
+    (h : P.finish ps = some (fin, t)) (ht : tee temp fin io.writeOk = some tt) (hn : updNl nl fin = true) :
+    step c req (.streaming u rest temp nl ps rx) (.eof io) =
+      (commit c req.path u tt io, .done (.downloaded rx u)) := by
+  simp only [step, h, ht, hn, if_true]
+
 theorem getElem?_set_fst {α β : Type} (l : List (α × β)) (i : Nat) (a : α) (b b' : β)
     (h : l[i]? = some (a, b)) : (l.set i (a, b')).map Prod.fst = l.map Prod.fst := by
   induction l generalizing i with
